@@ -5,7 +5,7 @@ components, scalars and dynamic indices are symbolic; the reference interpreter'
 semantics against the real typing, lowering (shuffles, VECTOR_SET / MATRIX_SET, per-row
 matrix lowering) and VM."""
 from .. import core
-from ..gen import f4
+from ..gen import f4, f4r
 from . import famcheck
 
 PID = "C04"
@@ -23,13 +23,13 @@ def run(tier, seed, only=None):
     chk = core.Check(PID, "translation_validation", tier, seed,
                      rule="one program per (type, operation / mask / index form); components, scalars and dynamic indices symbolic. Distinct = distinct source text; "
                           "non-trivial = compiled, >= 1 joint path reached the component-wise comparison and its query was discharged")
-    items = f4.family(tier)
+    items = f4.family(tier) + f4r.generate(seed, 120 if tier == "quick" else 2000, depth=2 if tier == "quick" else 3)
     if only:
         items = [i for i in items if only in i.name or only in i.tags]
     famcheck.describe(chk, items, tier)
     chk.bounds.update({"family": "F4: constructors in every split; + - and the six comparisons on all vector types; scaling; matrix + - * (3x3, 4x4); v[i], m[i], m[i][j] constant and dynamic; "
                                  "every swizzle read mask of length 1-4 (quick: float xyzw complete, int / rgba up to length 2; thorough: all), every non-repeating write mask; element and "
-                                 "row writes; copies then writes",
+                                 "row writes; copies then writes; plus VERIF_SEED-generated random programs composing these operations (120 quick / 2000 thorough)",
                        "outside": "uint vectors; non-square matrices (not spellable); scalar * matrix and matrix * vector (known findings of C09); rounding"})
     famcheck.o1_selftest(chk)
     results = core.run_pool("vlib.harness.C04", "run_instance", [famcheck.pack(i) for i in items])
